@@ -34,7 +34,11 @@ CLAIMS = {
     technique="symbolic-scalar concolic execution with repeated fits per path; term identity as bit-identity oracle; z3 for path enumeration",
     design_ref="DESIGN.md §4 C20"),
 }
-NA = {}
+NA = {
+ "C10": "not applicable to solver-based checking within reach: a Gaussian-mixture fit is k-means initialisation + Cholesky factorisations + an EM loop with exp/ln in every step and a data-dependent iteration count; with exp/ln uninterpreted the fitted weights/covariances are unconstrained terms, so positivity, normalisation and the precision-covariance inverse relation cannot be decided, and z3's nonlinear real arithmetic does not get through one EM step (DESIGN.md C10). Only GmmParams::check_ref is covered, under C04.",
+ "C17": "not applicable: the vectorisers compile a regex inside check_ref, normalise unicode and count into HashMap<String, _>; none of this is generic over the scalar (Engine S has nothing to make symbolic) and regex compilation / SipHash over symbolic strings is far outside CBMC's reach (DESIGN.md C17). The numeric guard conditions are covered under C04.",
+ "C18": "not applicable: PCA is implemented for f64 only on top of a LOBPCG truncated SVD with a random start (iterative, sqrt/division chains, eigenvalue optimality statement); neither engine can execute it symbolically within any useful bound (DESIGN.md C18). Parameter / empty-input errors are covered under C04.",
+}
 
 checks = []
 for p in props:
